@@ -29,7 +29,7 @@ def all_fn_refs(body):
                 yield bi, f, blk["sp"], ("call" if f is cf else "value")
 
 
-def check_streaming(ctx, entries, allow_complete, rule="CALL-S"):
+def check_streaming(ctx, entries, allow_complete, rule="CALL-S", defer_complete=False):
     """Every nom primitive reachable from `entries` is a streaming one.
     allow_complete: {(function path, primitive path)} tolerated complete primitives."""
     F, R, cg = ctx.facts, ctx.report, ctx.cg
@@ -49,6 +49,10 @@ def check_streaming(ctx, entries, allow_complete, rule="CALL-S"):
             elif NOM_COMPLETE.search(path):
                 if (p, path) in allow_complete:
                     R.instance(rule + ".allow", "%s references %s: allow-listed (%s)" % (p, path, allow_complete[(p, path)]))
+                elif defer_complete:
+                    if not hasattr(ctx, "deferred_complete"):
+                        ctx.deferred_complete = []
+                    ctx.deferred_complete.append((p, path, fl, ln))
                 else:
                     R.violation(rule, "%s|%s" % (p, path), "complete (non-streaming) nom primitive %s reachable from %s: a truncated buffer yields a hard error or a short result instead of Incomplete" % (path, entries[0]), file=fl, line=ln, function=p, call_path=cg.path_to(entries, p))
             elif NOM_DENY.search(path):
